@@ -4,6 +4,7 @@ from __future__ import annotations
 
 import asyncio
 from contextlib import contextmanager
+import itertools
 
 from vlib.peers_tunnel import (
     SECURE_DEVICE_PASSWORD,
@@ -17,7 +18,8 @@ from vlib.peers_tunnel import (
 )
 from vlib.vloop import Deadlock, LoopBudget, new_loop
 from xknx import XKNX
-from xknx.core import XknxConnectionState
+from xknx.core import XknxConnectionState, XknxConnectionType
+from xknx.core.connection_manager import ConnectionManager
 from xknx.exceptions import CommunicationError
 from xknx.io.tunnel import SecureTunnel, TCPTunnel, UDPTunnel, _Tunnel
 
@@ -53,7 +55,8 @@ SHARDS = {"quick": 1, "thorough": 16}
 TIMEOUT = {"quick": 300, "thorough": 3000}
 
 EPS = 1e-9
-CONFIGS = (("udp", True, False), ("udp", False, False), ("udp", True, True), ("tcp", True, False), ("tcp", False, False),
+CONFIGS = (("udp", True, False), ("udp", False, False), ("udp", True, True), ("udp", True, "registered-loop"),
+           ("tcp", True, False), ("tcp", False, False), ("tcp", True, "registered-loop"),
            ("secure", True, False), ("secure", False, False))
 FAULTS_UDP = ("SD", "SD2", "SDL", "SDRE", "SDCR", "SDCD", "HB4", "HB3", "AD2", "AD1", "OOO", "BO", "BOUD", "UD")
 FAULTS_TCP = ("SD", "SD2", "SDL", "SDRE", "SDCR", "SDCD", "HB4", "HB3", "TL", "TLCR", "BO", "BOUD", "UD")
@@ -91,7 +94,9 @@ class Session:
     def __init__(self, transport, auto, faults, route_back=False):
         self.transport = transport
         self.auto = auto
-        self.route_back = route_back
+        # third configuration field: False | True (route_back) | "registered-loop" (ConnectionManager.register_loop() mode)
+        self.registered = route_back == "registered-loop"
+        self.route_back = route_back is True
         self.faults = faults  # list of (kind, iteration, frac)
         self.loop = new_loop()
         self.inj = IterationInjector(self.loop)
@@ -379,6 +384,8 @@ class Session:
         loop = self.loop
         self.xknx = XKNX()
         cm = self.xknx.connection_manager
+        if self.registered:
+            await cm.register_loop()  # state changes now travel through call_soon_threadsafe
         cm.register_connection_state_changed_cb(self._state_cb1)
         cm.register_connection_state_changed_cb(self._state_cb2)
         if self.transport == "udp":
@@ -451,7 +458,7 @@ def judge_session(ctx, transport, auto, faults, sample=False, route_back=False):
     applied = [f for f in s.injected]
     for k, v in s.counts.items():
         ctx.count(k, v)
-    ctx.count(f"runs_{transport}_{'auto' if auto else 'noauto'}{'_route_back' if route_back else ''}")
+    ctx.count(f"runs_{transport}_{'auto' if auto else 'noauto'}{'_route_back' if route_back is True else '_registered_loop' if route_back else ''}")
     ctx.count("reconnects_started", s.reconnects_started)
     ctx.count("state_callbacks", len(s.cb1))
     if s.driver_error:
@@ -479,12 +486,123 @@ def judge_session(ctx, transport, auto, faults, sample=False, route_back=False):
     return s
 
 
+# ---------------------------------------------------------------------------
+# ConnectionManager alone: bursts of connection_state_changed() calls between loop turns, both modes
+
+CM_STATES = (XknxConnectionState.DISCONNECTED, XknxConnectionState.CONNECTING, XknxConnectionState.CONNECTED)
+CM_TYPES = (XknxConnectionType.NOT_CONNECTED, XknxConnectionType.TUNNEL_UDP, XknxConnectionType.TUNNEL_TCP)
+
+
+def cm_cases(quick):
+    """(sequence of state indices, turns before each further call) - all orders incl. repeats, all turn patterns."""
+    full = 4 if quick else 5
+    longest = 6 if quick else 7
+    for n in range(1, longest + 1):
+        for seq in itertools.product(range(3), repeat=n):
+            if n <= full:
+                patterns = itertools.product((0, 1, 3), repeat=n - 1)
+            else:
+                patterns = [(0,) * (n - 1), (1,) * (n - 1), tuple((0, 1)[i % 2] for i in range(n - 1)),
+                            tuple((0, 0, 3)[i % 3] for i in range(n - 1))]
+            for turns in patterns:
+                yield seq, tuple(turns)
+
+
+async def cm_case(seq, turns, registered):
+    """Run one case on a fresh ConnectionManager; returns a problem (mechanism, detail) or None, plus counts."""
+    cm = ConnectionManager()
+    if registered:
+        await cm.register_loop()
+    got1, got2, at_cb = [], [], []
+
+    def cb1(state):
+        got1.append(state.name)
+        at_cb.append((state is cm.state, cm.connected.is_set() == (state is XknxConnectionState.CONNECTED)))
+
+    cm.register_connection_state_changed_cb(cb1)
+    cm.register_connection_state_changed_cb(lambda state: got2.append(state.name))
+    applied = XknxConnectionState.DISCONNECTED
+    applied_type = XknxConnectionType.NOT_CONNECTED
+    want = []
+    problem = None
+    for i, idx in enumerate(seq):
+        if i:
+            for _ in range(turns[i - 1]):
+                await asyncio.sleep(0)
+        state, ctype = CM_STATES[idx], CM_TYPES[idx]
+        cm.connection_state_changed(state, ctype)
+        if state is not applied:  # reference fold: a real transition relative to the state applied so far
+            want.append(state.name)
+            applied, applied_type = state, ctype
+        if not registered and got1 != want and problem is None:
+            problem = ("callbacks-differ-from-transitions-right-after-the-call", {"after_call": i})
+    for _ in range(4):  # let the loop apply whatever was queued
+        await asyncio.sleep(0)
+    detail = {"issued": [CM_STATES[i].name for i in seq], "turns_between_calls": list(turns), "expected_callbacks": want,
+              "callback_1": got1, "callback_2": got2, "final_state": cm.state.name, "connected": cm.connected.is_set(),
+              "connection_type": str(cm.connection_type)}
+    if problem is None:
+        if got1 != got2:
+            problem = ("callbacks-saw-different-sequences", {})
+        elif got1 != want:
+            dup = any(a == b for a, b in zip(got1, got1[1:]))
+            problem = ("callback-notified-twice-for-one-state" if dup else
+                       "transition-not-reported" if len(got1) < len(want) else "callbacks-differ-from-transitions", {})
+        elif cm.state is not applied:
+            problem = ("final-state-is-not-the-last-issued-state", {})
+        elif cm.connected.is_set() != (cm.state is XknxConnectionState.CONNECTED):
+            problem = ("connected-event-differs-from-state", {})
+        elif not all(a and b for a, b in at_cb):
+            problem = ("state-or-connected-event-inconsistent-inside-callback", {})
+        elif cm.connection_type is not applied_type:
+            problem = ("connection-type-is-not-the-one-of-the-last-transition", {})
+        elif (cm.connected_since is not None) != (cm.state is XknxConnectionState.CONNECTED):
+            problem = ("connected_since-inconsistent-with-state", {})
+    if problem is not None:
+        problem = (problem[0], {**detail, **problem[1]})
+    return problem, len(got1), len(seq) - len(want)
+
+
+def cm_section(ctx):
+    loop = new_loop()
+
+    async def main():
+        for registered in (False, True):
+            mode = "registered-loop" if registered else "same-loop"
+            for n, (seq, turns) in enumerate(cm_cases(ctx.quick)):
+                if not ctx.mine(n):
+                    continue
+                ctx.ev()
+                problem, delivered, deduped = await cm_case(seq, turns, registered)
+                ctx.count(f"cm_cases_{mode.replace('-', '_')}")
+                ctx.count("cm_calls_issued", len(seq))
+                ctx.count("cm_callbacks_delivered", delivered)
+                ctx.count("cm_calls_deduplicated", deduped)
+                ctx.distinct(("cm", mode, seq, tuple(min(t, 1) for t in turns)))
+                if len(seq) == 4 and n % 997 == 0:
+                    ctx.sample({"connection_manager": mode, "issued": [CM_STATES[i].name for i in seq], "turns": turns}, cap=8)
+                if problem is not None:
+                    ctx.violation(f"connection-manager-{mode}-{problem[0]}", {"section": "connection_manager", "mode": mode,
+                                                                             "seq": list(seq), "turns": list(turns), **problem[1]},
+                                  f"ConnectionManager ({mode}): issued {problem[1]['issued']} with {list(turns)} loop turns between "
+                                  f"the calls: {problem[0]}; expected callbacks {problem[1]['expected_callbacks']}, got "
+                                  f"{problem[1]['callback_1']}, final state {problem[1]['final_state']}")
+
+    try:
+        loop.iterations = 0
+        loop.max_iterations = 50_000_000
+        loop.run(main(), max_vtime=1e6)
+    finally:
+        loop.finish()
+
+
 def run(ctx):
     ctx.rule = ("baseline session x {udp,tcp} x auto_reconnect {on,off}; every failure kind at every loop iteration k of the run and "
                 "at the middle of every sleep (singles); pairs: (any kind, then SD or UD at k1..k1+2) in quick, all ordered pairs with the second at k1..k1+10, k1+12, k1+30 in thorough; "
                 "distinct = (transport, auto, fault kinds, state-callback sequence, reconnects, handshakes)")
     ctx.require("fault_SD", "fault_SD2", "fault_SDL", "fault_SDRE", "server_disconnect_right_after_reconnect", "fault_SDCR", "fault_SDCD", "connect_responses_delayed",
-                "runs_udp_auto_route_back", "fault_OOO", "fault_BO", "fault_BOUD", "frames_swallowed_by_blackout", "fault_HB4", "fault_HB3", "fault_AD2", "fault_AD1", "fault_TL", "fault_TLCR",
+                "runs_udp_auto_route_back", "runs_udp_auto_registered_loop", "runs_tcp_auto_registered_loop",
+                "cm_cases_same_loop", "cm_cases_registered_loop", "cm_calls_issued", "cm_callbacks_delivered", "cm_calls_deduplicated", "fault_OOO", "fault_BO", "fault_BOUD", "frames_swallowed_by_blackout", "fault_HB4", "fault_HB3", "fault_AD2", "fault_AD1", "fault_TL", "fault_TLCR",
                 "fault_UD", "fault_SC", "fault_ST", "runs_secure_auto", "runs_secure_noauto", "reconnects_started", "handshakes_completed", "state_callbacks", "sleep_points_checked",
                 "user_disconnect_returned", "heartbeats_left_unanswered", "acks_dropped", "connect_requests_left_unanswered")
     window = ctx.scale(2, 10)
@@ -494,7 +612,7 @@ def run(ctx):
             base = judge_session(ctx, transport, auto, [], sample=True, route_back=rb)
             n_iter = base.iterations
             sleeping = set(base.sleeps)
-            ctx.extra[f"baseline_iterations_{transport}_{'auto' if auto else 'noauto'}{'_rb' if rb else ''}"] = n_iter
+            ctx.extra[f"baseline_iterations_{transport}_{'auto' if auto else 'noauto'}{'_rb' if rb is True else '_reg' if rb else ''}"] = n_iter
             kinds = FAULTS_UDP if transport == "udp" else FAULTS_TCP if transport == "tcp" else FAULTS_SECURE
             k0 = base.k_connected  # failures are injected once the user's connect() has returned
             points = [(k, 0.0) for k in range(k0, n_iter)]
@@ -507,7 +625,7 @@ def run(ctx):
                         continue
                     judge_session(ctx, transport, auto, [(kind, k, frac)], sample=(kind in ("SDCR", "HB4") and k == 20),
                                   route_back=rb)
-            if not (ctx.quick and transport == "secure"):  # secure tunnel: singles in quick, pairs in thorough
+            if not (ctx.quick and (transport == "secure" or rb == "registered-loop")):  # these: singles in quick, pairs in thorough
                 seconds = kinds if window > 2 else ("SD", "UD")
                 far = [k1_off for k1_off in ((12, 30) if window > 2 else ())]
                 for k1 in range(k0, n_iter):
@@ -518,14 +636,27 @@ def run(ctx):
                                 if not ctx.mine(i):
                                     continue
                                 judge_session(ctx, transport, auto, [(kind1, k1, 0.0), (kind2, k2, 0.0)], route_back=rb)
+    cm_section(ctx)
     ctx.exhaustive = True
     ctx.extra["bound"] = {"single_faults": "every iteration + middle of every sleep", "pair_window_iterations": window}
 
 
 def replay(ctx, witness):
     ctx.rule = "replay of one recorded fault schedule"
+    if witness.get("section") == "connection_manager":
+        loop = new_loop()
+        try:
+            problem, _d, _x = loop.run(cm_case(tuple(witness["seq"]), tuple(witness["turns"]), witness["mode"] == "registered-loop"))
+        finally:
+            loop.finish()
+        ctx.ev()
+        if problem is not None:
+            ctx.violation(f"connection-manager-{witness['mode']}-{problem[0]}", {**witness, **problem[1]}, f"replayed: {problem[0]}")
+        ctx.distinct("replay")
+        ctx.distinct("replay2")
+        return
     with watch_reconnect(), secure_harness(ctx.seed):
         judge_session(ctx, witness["transport"], witness["auto_reconnect"], [tuple(f) for f in witness["faults"]],
-                      route_back=bool(witness.get("route_back")))
+                      route_back=witness.get("route_back") or False)
     ctx.distinct("replay")
     ctx.distinct("replay2")
